@@ -1,19 +1,14 @@
-import YaclibModel.Proofs.CoSharedMutex
+import YaclibModel.Proofs.CoSharedMutexS_rdUnlock_1
+import YaclibModel.Proofs.CoSharedMutexS_rdUnlock_2
+import YaclibModel.Proofs.CoSharedMutexS_rdUnlock_3
 namespace Yaclib.CoSharedMutex
 
-set_option maxHeartbeats 4000000 in
 theorem inv_rdUnlock {cfg : Cfg} {s : State} (hi : Inv cfg s) (c : Cid) (h : s.pc c = .rLocked) (hs : s.spin = .held c) :
     Inv cfg ((doRdUnlock s c)) := by
-  have hpb := pendBy_none_of_held hi hs (by rw [h]; rfl)
-  have hpd := hi.pend_none hpb
-  have hc1 : s.ifl.count c = 1 := by have := hi.l_ifl c; rw [h] at this; simpa [Pc.isIFL] using this
-  have hl := len_pos_of_count hc1
-  have hWne : s.pass = 0 → s.W ≠ 0 := by
-    intro hp0 hW0; have := (hi.j1 hW0).1; omega
-  cases hi
   by_cases hp : s.pass = 0
-  · cases hr : s.cfg.rfifo <;>
-      simp only [doRdUnlock, hp, hr, ne_eq, not_true_eq_false, Bool.false_eq_true, ↓reduceIte] <;> sm_auto [List.count_le_length]
-  · simp only [doRdUnlock, hp, ne_eq, not_false_eq_true, ↓reduceIte]; sm_auto [List.count_le_length]
+  · cases hr : s.cfg.rfifo
+    · exact inv_rdUnlock_1 hi c h hs hp hr
+    · exact inv_rdUnlock_2 hi c h hs hp hr
+  · exact inv_rdUnlock_3 hi c h hs hp
 
 end Yaclib.CoSharedMutex
